@@ -578,7 +578,7 @@ func (ctx drawContext) drawBorder(box_ Box) {
 	// Draw column borders.
 	drawColumnBorder := func() {
 		columns := bo.BlockContainerT.IsInstance(box_) && (box.Style.GetColumnWidth().S != "auto" || box.Style.GetColumnCount().String != "auto")
-		if crw := box.Style.GetColumnRuleWidth(); columns && !crw.IsNone() {
+		if crw := box.Style.GetColumnRuleWidth(); columns && !crw.IsNone() && crw.Value != 0 { // a rule of width 0 paints nothing
 			borderWidths := pr.Rectangle{0, 0, 0, crw.Value}
 
 			// columns that have a rule drawn on the left.
@@ -1099,12 +1099,18 @@ func clipBorderSegment(context backend.Canvas, style pr.String, width fl, side p
 			// 2x + 1 dashes
 			context.State().Clip(true)
 			ld := fl(math.Round(float64(length / dash)))
+			if !(ld >= 1) { // a side shorter than half a dash (or of width 0): one dash over the whole side
+				ld = 1
+			}
 			denom := ld - utils.FloatModulo(ld+1, 2)
 			dash = length
 			if denom != 0 {
 				dash /= denom
 			}
 			maxI := int(math.Round(float64(length / dash)))
+			if maxI < 1 { // zero-length side (0/0): still build a (degenerate) path before clipping
+				maxI = 1
+			}
 			for i_ := 0; i_ < maxI; i_ += 2 {
 				i := fl(i_)
 				switch side {
